@@ -1346,6 +1346,174 @@ INDEPENDENT_CASES = [["independent", "Base64Binary", "YWJj"], ["independent", "B
                      ["independent", "HexBinary", ""], ["independent", "Duration", "P1Y2M"], ["independent", "Duration", "PT0S"]]
 
 
+# =============================================================================================== the carriers in the adapters
+# The property is observed "at the value + valueType members of serialised Property, Range, Qualifier and Extension objects" as
+# well: every edge value of every type (vf.gen.zoo_submodel: the deterministic zoo) is written by both adapters; the member texts
+# must be the own type name and a valid literal that denotes the value, and the strict readers must give back an equal value of the
+# same type.  Literals outside a type's space in such a member must be rejected by the strict readers.
+
+CARRIER_BAD = [("xs:int", ""), ("xs:int", "2147483648"), ("xs:boolean", "2"), ("xs:boolean", ""), ("xs:normalizedString", "\ttabbed"),
+               ("xs:normalizedString", "a\nb"), ("xs:date", "2020-13-01"), ("xs:unsignedByte", "256"), ("xs:double", ""),
+               ("xs:duration", ""), ("xs:dateTime", "2020-01-01T25:00:00"), ("xs:hexBinary", "0"), ("xs:gMonth", "--13"),
+               ("xs:positiveInteger", "0"), ("xs:byte", " 1x")]
+
+
+def carriers_check() -> List[C.Failing]:
+    import io
+    import json as _json
+    import logging
+    from vf import gen, canon
+    from lxml import etree
+    from basyx.aas import model
+    from basyx.aas.adapter.json import AASToJsonEncoder, read_aas_json_file
+    from basyx.aas.adapter.xml import read_aas_xml_file
+    from basyx.aas.adapter.xml import xml_serialization
+    logging.getLogger("basyx").setLevel(logging.CRITICAL)
+    D = _D()
+    out: List[C.Failing] = []
+    sigs = set()
+
+    def fail(sig, what, case):
+        if sig not in sigs:
+            sigs.add(sig)
+            out.append(C.Failing(sig, what, case))
+    cls_name = {getattr(D, n): n for n in OWN_NAMES if hasattr(D, n)}
+    sm = gen.Gen(random.Random("C06carriers"), max_depth=2).zoo_submodel()
+    ns = "{https://admin-shell.io/aas/3/0}"
+
+    def same(a, b):
+        ta, tb = canon.native(a), canon.native(b)
+        return ta == tb or (isinstance(a, float) and a != a and isinstance(b, float) and b != b and type(a) is type(b))
+
+    # ---- what is written
+    jdoc = _json.loads(_json.dumps(sm, cls=AASToJsonEncoder))
+    xroot = xml_serialization.object_store_to_xml_element(model.DictObjectStore([sm]))
+    xsm = xroot.find(f"{ns}submodels/{ns}submodel")
+    carriers = []          # (label, value type class, value, json dict, json member, xml element holding valueType, xml member)
+    jel = {e["idShort"]: e for e in jdoc["submodelElements"]}
+    xel = {e.findtext(ns + "idShort"): e for e in xsm.find(ns + "submodelElements")}
+    for e in sm.submodel_element:
+        if isinstance(e, model.Property):
+            carriers.append((f"Property:{e.id_short}", e.value_type, e.value, jel[e.id_short], "value", xel[e.id_short], "value"))
+        else:
+            carriers.append((f"Range.min:{e.id_short}", e.value_type, e.min, jel[e.id_short], "min", xel[e.id_short], "min"))
+            carriers.append((f"Range.max:{e.id_short}", e.value_type, e.max, jel[e.id_short], "max", xel[e.id_short], "max"))
+    jq = {q["type"]: q for q in jdoc["qualifiers"]}
+    xq = {q.findtext(ns + "type"): q for q in xsm.find(ns + "qualifiers")}
+    for q in sm.qualifier:
+        carriers.append((f"Qualifier:{q.type}", q.value_type, q.value, jq[q.type], "value", xq[q.type], "value"))
+    jx = {x["name"]: x for x in jdoc["extensions"]}
+    xx = {x.findtext(ns + "name"): x for x in xsm.find(ns + "extensions")}
+    for x in sm.extension:
+        carriers.append((f"Extension:{x.name}", x.value_type, x.value, jx[x.name], "value", xx[x.name], "value"))
+    for label, vt, v, jd, jm, xe, xm in carriers:
+        tn = cls_name.get(vt, vt.__name__)
+        kind = label.split(":")[0]
+        own = "xs:" + OWN_NAMES.get(tn, "?")
+        for fmt, name, text in (("json", jd.get("valueType"), jd.get(jm)), ("xml", xe.findtext(ns + "valueType"), xe.findtext(ns + xm))):
+            case = ["carrier", fmt, label]
+            if name != own:
+                fail(f"carrier:{fmt}:{kind}:type-name:{tn}", f"{label}: value type {tn} is announced as {name!r} in the {fmt} document, its own name is {own!r}", case)
+            if fmt == "xml" and text is None:
+                text = ""             # an empty element denotes the empty string
+            if not isinstance(text, str):
+                fail(f"carrier:{fmt}:{kind}:literal-missing:{tn}", f"{label}: the {fmt} document carries {text!r} for the value {v!r}", case)
+                continue
+            if not xsd_valid(tn, text):
+                fail(f"carrier:{fmt}:{kind}:literal-invalid:{tn}", f"{label}: {text!r} written for {v!r} is not a literal of {own}", case)
+            try:
+                back = D.from_xsd(text, vt)
+                if not same(back, v):
+                    fail(f"carrier:{fmt}:{kind}:literal-denotes-other:{tn}", f"{label}: {text!r} written for {v!r} denotes {back!r}", case)
+            except Exception as e:      # noqa
+                fail(f"carrier:{fmt}:{kind}:literal-invalid:{tn}", f"{label}: {text!r} written for {v!r} does not parse as {own}: {e!r}"[:300], case)
+    # ---- what is read back (strict readers)
+    for fmt in ("json", "xml"):
+        try:
+            if fmt == "json":
+                got = read_aas_json_file(io.StringIO(_json.dumps({"submodels": [jdoc]})), failsafe=False)
+            else:
+                got = read_aas_xml_file(io.BytesIO(etree.tostring(xroot)), failsafe=False)
+            sm2 = got.get_identifiable("urn:vf:zoo")
+        except Exception as e:       # noqa
+            fail(f"carrier:{fmt}:read-raises", f"strict {fmt} reader rejects the SDK's own document of every edge value: {e!r}"[:300], ["carrier", fmt, "*"])
+            continue
+        back = {}
+        for e in sm2.submodel_element:
+            if isinstance(e, model.Property):
+                back[f"Property:{e.id_short}"] = (e.value_type, e.value)
+            else:
+                back[f"Range.min:{e.id_short}"] = (e.value_type, e.min)
+                back[f"Range.max:{e.id_short}"] = (e.value_type, e.max)
+        for q in sm2.qualifier:
+            back[f"Qualifier:{q.type}"] = (q.value_type, q.value)
+        for x in sm2.extension:
+            back[f"Extension:{x.name}"] = (x.value_type, x.value)
+        for label, vt, v, *_ in carriers:
+            tn = cls_name.get(vt, vt.__name__)
+            kind = label.split(":")[0]
+            if label not in back:
+                fail(f"carrier:{fmt}:{kind}:lost", f"{label} is missing after the {fmt} round trip", ["carrier", fmt, label])
+                continue
+            vt2, v2 = back[label]
+            if vt2 is not vt:
+                fail(f"carrier:{fmt}:{kind}:type-changed:{tn}", f"{label}: value type {tn} comes back as {vt2.__name__} ({fmt})", ["carrier", fmt, label])
+            elif v2 is None or not same(v2, v) or type(v2) is not type(v):
+                fail(f"carrier:{fmt}:{kind}:value-changed:{tn}", f"{label}: {v!r} comes back as {v2!r} ({fmt})", ["carrier", fmt, label])
+    # ---- literals outside the type's space inside a carrier: rejected, not coerced
+    for vt_name, lit in CARRIER_BAD:
+        for kind in ("Property", "Range", "Qualifier", "Extension"):
+            el = {"modelType": "Property", "idShort": "p", "valueType": "xs:string", "value": "x"}
+            smj = {"modelType": "Submodel", "id": "urn:bad", "submodelElements": [el]}
+            if kind == "Property":
+                el.update(valueType=vt_name, value=lit)
+            elif kind == "Range":
+                el.clear(); el.update(modelType="Range", idShort="p", valueType=vt_name, min=lit)
+            elif kind == "Qualifier":
+                smj["qualifiers"] = [{"type": "q", "valueType": vt_name, "value": lit}]
+            else:
+                smj["extensions"] = [{"name": "x", "valueType": vt_name, "value": lit}]
+
+            def xml_of():
+                def t(tag, text):
+                    return f"<aas:{tag}>{text}</aas:{tag}>"
+                esc = lit.replace("&", "&amp;").replace("<", "&lt;").replace("\t", "&#9;").replace("\n", "&#10;")
+                ext = qual = ""
+                sme = t("property", t("idShort", "p") + t("valueType", "xs:string") + t("value", "x"))
+                if kind == "Property":
+                    sme = t("property", t("idShort", "p") + t("valueType", vt_name) + t("value", esc))
+                elif kind == "Range":
+                    sme = t("range", t("idShort", "p") + t("valueType", vt_name) + t("min", esc))
+                elif kind == "Qualifier":
+                    qual = t("qualifiers", t("qualifier", t("type", "q") + t("valueType", vt_name) + t("value", esc)))
+                else:
+                    ext = t("extensions", t("extension", t("name", "x") + t("valueType", vt_name) + t("value", esc)))
+                return ('<?xml version="1.0"?><aas:environment xmlns:aas="https://admin-shell.io/aas/3/0"><aas:submodels>'
+                        + t("submodel", ext + t("id", "urn:bad") + qual + t("submodelElements", sme)) + "</aas:submodels></aas:environment>").encode()
+            for fmt in ("json", "xml"):
+                if fmt == "xml" and lit == "":
+                    continue        # an empty XML element is the absent value for typed members; not a literal
+                try:
+                    if fmt == "json":
+                        got = read_aas_json_file(io.StringIO(_json.dumps({"submodels": [smj]})), failsafe=False)
+                    else:
+                        got = read_aas_xml_file(io.BytesIO(xml_of()), failsafe=False)
+                    o = got.get_identifiable("urn:bad")
+                    if kind in ("Property", "Range"):
+                        e2 = o.get_referable("p")
+                        v2 = e2.value if kind == "Property" else e2.min
+                    elif kind == "Qualifier":
+                        v2 = o.get_qualifier_by_type("q").value
+                    else:
+                        v2 = o.get_extension_by_name("x").value
+                    fail(f"carrier:{fmt}:{kind}:bad-literal-accepted:{vt_name}", f"{kind} with valueType {vt_name} and the literal {lit!r} is accepted by the "
+                         f"strict {fmt} reader as {v2!r}", ["carrier-bad", fmt, kind, vt_name, lit])
+                except Exception:       # noqa
+                    pass
+    return out
+
+
+
 def oracle(ctx: C.Ctx, cov: C.Coverage) -> List[C.Failing]:
     D = _D()
     ctx2 = C.Ctx(ctx.prop, ctx.tier, ctx.seed, random.Random(f"{ctx.prop}:{ctx.seed}"), ctx.t0, ctx.jobs)
@@ -1355,6 +1523,10 @@ def oracle(ctx: C.Ctx, cov: C.Coverage) -> List[C.Failing]:
         f = check_independent(D, ic)
         if f is not None and f.sig not in {g.sig for g in out}:
             out.append(f)
+    for f in carriers_check():
+        if f.sig not in {g.sig for g in out}:
+            out.append(f)
+    cov.hit("oracle:carriers")
     sigs = {f.sig for f in out}
     n = 0
     for case in cases:
@@ -1389,4 +1561,7 @@ def search(ctx: C.Ctx, disagreements, broken) -> List[C.Failing]:
 def replay(case) -> Optional[C.Failing]:
     if isinstance(case, list) and case and case[0] == "independent":
         return check_independent(_D(), case)
+    if isinstance(case, list) and case and case[0] in ("carrier", "carrier-bad"):
+        fs = [f for f in carriers_check() if f.case == case]
+        return fs[0] if fs else None
     return check_case(_D(), case)
